@@ -566,6 +566,15 @@ package server
 //@   requires-inv [the-store-is-open] ds != nil && ds.store != nil ==> ds.store.database != nil
 //@   frame-assumed preserves Dataset.ID, Dataset.InternalID, Dataset.store, Store.NamespaceManager, Store.datasets, Store.datasetsByInternalID, Store.idmux, Store.database, Store.deletedDatasets, Store.MetaCtx, Store.nextDatasetID
 //@   safe nilmap
+//@   ghost seqObjG int = 0
+//@   at call GetSequence#1 before
+//@     assert [C02,C04:change-positions-come-from-the-datasets-own-sequence] len(key) == 6 && encBE16(key, 0) == SysDatasetsSequences && encBE32(key, 2) == ds.InternalID
+//@   at call GetSequence#1
+//@     ghost seqObjG := $result0
+//@   at call Next#1 before
+//@     assert [C02:each-change-position-is-drawn-from-that-sequence] $arg0 == seqObjG
+//@   at $1 call Release#1 before
+//@     assert [C04:the-sequence-lease-taken-for-the-batch-is-released] $arg0 == seqObjG
 //@   at call assertIDForURI#1 before
 //@     ghost firstG := false
 //@     ghost wroteG := false
